@@ -247,8 +247,14 @@ def gen_eval(rng, widen, floaty=False):
         style = rng.weighted([(None, 5), ("len1", 1), ("mixed", 2)])
         scripts.append(gen_script18(rng, floaty, need_done=True, style=style,
                                     length=rng.weighted([(None, 4), (1, 1), (2, 1), (rng.randint(15, 30), 1)])))
+    gym_env = n == 1 and wrap in ("none", "monitor") and rng.chance(0.5)
+    # a reward-transforming VecEnvWrapper ABOVE the monitor(s): with a Monitor/VecMonitor anywhere in the stack the reported
+    # returns are the true ones whatever the outer wrappers do to the reward batch (seeded C18-f)
+    outer = "none"
+    if wrap != "none" and not gym_env:
+        outer = rng.weighted([("none", 3), ("vecnormalize", 2), ("scale", 2), ("two", 1)])
     return {"kind": "eval", "float": floaty, "rdtype": gen_rdtype(rng), "n": n, "N": N, "wrap": wrap, "scripts": scripts,
-            "gym_env": n == 1 and wrap in ("none", "monitor") and rng.chance(0.5),
+            "gym_env": gym_env, "outer": outer,
             "pre_steps": rng.weighted([(0, 5), (1, 2), (rng.randint(2, 9), 2)]),
             "twice": rng.chance(0.25), "N2": rng.randint(0, 9), "ret_eps": not rng.chance(0.15),
             "callback": rng.chance(0.3), "allow_early": True, "clock": gen_clock(rng)}
@@ -957,6 +963,27 @@ def cmp_vecmonitor(ctx, case, r, mo):
 EXTRA_ROWS = 4
 
 
+def wrap_outer(venv, outer):
+    """reward-transforming wrappers placed above the monitors"""
+    if outer == "none":
+        return venv
+    from stable_baselines3.common.vec_env import VecEnvWrapper, VecNormalize
+
+    class ScaleReward(VecEnvWrapper):
+        def reset(self):
+            return self.venv.reset()
+
+        def step_wait(self):
+            o, r, d, i = self.venv.step_wait()
+            return o, r * np.float32(0.25) - np.float32(3.0), d, i
+
+    if outer == "scale":
+        return ScaleReward(venv)
+    if outer == "vecnormalize":
+        return VecNormalize(venv, norm_obs=False, norm_reward=True, clip_reward=1.0)
+    return ScaleReward(VecNormalize(venv, norm_obs=False, norm_reward=True, clip_reward=1.0))
+
+
 def run_eval(ctx, case):
     from stable_baselines3.common.evaluation import evaluate_policy
     from stable_baselines3.common.vec_env import DummyVecEnv, VecMonitor
@@ -977,6 +1004,7 @@ def run_eval(ctx, case):
                                 for i in range(n)])
             bases = [venv.envs[i].unwrapped for i in range(n)]
             target = VecMonitor(venv) if wrap in ("vecmonitor", "both") else venv
+            target = wrap_outer(target, case.get("outer", "none"))
         if case["pre_steps"]:
             if case["gym_env"]:
                 target.reset()
@@ -1099,7 +1127,7 @@ def oracle_eval(ctx, case, r):
     n = case["n"]
     for ci, c in enumerate(r["calls"]):
         N = c["N"]
-        sig = {"kind": "eval", "wrap": case["wrap"], "call": ci}
+        sig = {"kind": "eval", "wrap": case["wrap"], "call": ci, "outer": case.get("outer", "none")}
         if not c["first_is_reset"] or not c["lockstep"]:
             rep.violation("evaluate_policy did not reset the environments first / did not step them together", case,
                           dict(sig, field="protocol"))
@@ -1357,6 +1385,7 @@ def check_cases(ctx, cases):
             n, N = case["n"], case["N"]
             rep.count("eval:n=%d" % n)
             rep.count("eval:wrap=" + case["wrap"])
+            rep.count("eval:outer_reward_wrapper=" + case.get("outer", "none"))
             rep.count("eval:ratio=" + ("N=0" if N == 0 else "N<n" if N < n else "N%n=0" if N % n == 0 else "N%n!=0"))
             rep.count("eval:gym_env=%s" % case["gym_env"])
             rep.count("eval:pre_stepped=%s" % (case["pre_steps"] > 0))
